@@ -17,6 +17,11 @@
 //! * Distributed clock receive time latching from a propagation delay model of the tree, system
 //!   time, offset, delay, system time difference, FRMW/ARMW distribution.
 //! * Fault injection per datagram, absent devices, an event log.
+//! * Instrumentation for harnesses: raw frame capture ([`Segment::capture`], [`parse_datagrams`]),
+//!   true outbound arrival times of the propagation model ([`Segment::outbound_arrival_ns`]), and
+//!   deliberately inconsistent devices: [`Device::dl_status_override`] (register 0x0110 reads a fixed
+//!   value), [`Device::port_times_override`] (a latch stores fixed port receive times),
+//!   [`Device::preset_system_time`] (the local clock jumps so that 0x0910 reads a given value).
 //!
 //! Simplifications / deviations (also see the comments at the respective code):
 //!
@@ -254,6 +259,12 @@ pub struct Device {
     pub al_emulation: bool,
     /// Bits 0..3 of DL status (PDI operational, watchdog status, enhanced link detection).
     pub dl_status_base: u16,
+    /// If set, register 0x0110 reads exactly this value (whatever the topology says). Used to feed
+    /// inconsistent link information to the MainDevice.
+    pub dl_status_override: Option<u16>,
+    /// If set, a receive time latch stores exactly these values in 0x0900/0x0904/0x0908/0x090C
+    /// (all four ports, open or not) instead of the times from the propagation model.
+    pub port_times_override: Option<[u32; 4]>,
     al_pending: Option<(u8, u32)>,
     al_fallback: Option<(u32, u8)>,
 
@@ -332,6 +343,8 @@ impl Device {
             al_check_mailbox: true,
             al_emulation: false,
             dl_status_base: 0x0003,
+            dl_status_override: None,
+            port_times_override: None,
             al_pending: None,
             al_fallback: None,
             sii_read_8: false,
@@ -488,6 +501,17 @@ impl Device {
         if self.dc_kind == DcKind::Bits32 { t & 0xFFFF_FFFF } else { t }
     }
 
+    /// Shift the local clock so that the DC system time (register 0x0910) reads `value` at
+    /// simulated time `sim_ns`. Offset register, control loop state and drift are left alone; the
+    /// whole local clock (and therefore later receive time latches) jumps.
+    pub fn preset_system_time(&mut self, sim_ns: u64, value: u64) {
+        let current = self
+            .local_time(sim_ns)
+            .wrapping_add(self.dc_offset())
+            .wrapping_add(self.dc_sys_adjust);
+        self.clock_offset_ns = self.clock_offset_ns.wrapping_add(value.wrapping_sub(current));
+    }
+
     fn dc_offset(&self) -> u64 {
         if self.dc_kind == DcKind::Bits32 {
             // sign extension keeps 32 bit arithmetic consistent after masking
@@ -549,6 +573,7 @@ impl Device {
                     v |= 1 << (8 + 2 * p); // loop closed
                 }
             }
+            let v = self.dl_status_override.unwrap_or(v);
             self.mem[0x110..0x112].copy_from_slice(&v.to_le_bytes());
         }
         if overlaps(ado, len, reg::AL_STATUS, 1) {
@@ -1096,7 +1121,10 @@ impl Device {
     fn dc_latch(&mut self, ctx: &Ctx) {
         // Port register order in memory: 0x0900 port 0, 0x0904 port 1, 0x0908 port 2, 0x090C port 3
         for p in 0..4 {
-            if self.ports_open[p] {
+            if let Some(forced) = self.port_times_override {
+                let a = 0x900 + 4 * p;
+                self.mem[a..a + 4].copy_from_slice(&forced[p].to_le_bytes());
+            } else if self.ports_open[p] {
                 let t = self.local_time(ctx.port_rx_ns[p]) as u32;
                 let a = 0x900 + 4 * p;
                 self.mem[a..a + 4].copy_from_slice(&t.to_le_bytes());
@@ -1399,8 +1427,82 @@ pub struct Segment {
     pub last_round_trip_ns: u64,
     /// With no device connected, return the frame unprocessed instead of losing it.
     pub loopback_when_empty: bool,
+    /// If `Some`, every frame handed to [`Segment::process`] is recorded here with its response
+    /// (raw Ethernet frames). Unbounded: switch it on only around the calls of interest.
+    pub capture: Option<Vec<CapturedFrame>>,
     frame_seq: u64,
     datagram_seq: u64,
+}
+
+/// One frame recorded by [`Segment::capture`].
+#[derive(Debug, Clone, PartialEq, Eq)]
+pub struct CapturedFrame {
+    pub frame_seq: u64,
+    /// `Segment::now_ns` when the frame was processed.
+    pub now_ns: u64,
+    pub request: Vec<u8>,
+    /// `None`: the frame was lost.
+    pub response: Option<Vec<u8>>,
+}
+
+/// One datagram of a raw EtherCAT frame, see [`parse_datagrams`].
+#[derive(Debug, Clone, PartialEq, Eq)]
+pub struct RawDatagram {
+    pub cmd: u8,
+    pub idx: u8,
+    /// The four address bytes as on the wire (ADP low, ADP high, ADO low, ADO high).
+    pub adr: [u8; 4],
+    pub len: u16,
+    pub data: Vec<u8>,
+    pub wkc: u16,
+}
+
+impl RawDatagram {
+    pub fn adp(&self) -> u16 {
+        u16::from_le_bytes([self.adr[0], self.adr[1]])
+    }
+    pub fn ado(&self) -> u16 {
+        u16::from_le_bytes([self.adr[2], self.adr[3]])
+    }
+    pub fn logical_address(&self) -> u32 {
+        u32::from_le_bytes(self.adr)
+    }
+}
+
+/// Split a raw Ethernet frame (request or response) into its EtherCAT datagrams. Anything that is
+/// not a well formed EtherCAT frame yields an empty list; a truncated datagram ends the list.
+pub fn parse_datagrams(frame: &[u8]) -> Vec<RawDatagram> {
+    let mut out = Vec::new();
+    if frame.len() < 16 || frame[12..14] != [0x88, 0xA4] {
+        return out;
+    }
+    let hdr = u16::from_le_bytes([frame[14], frame[15]]);
+    if hdr >> 12 != 1 {
+        return out;
+    }
+    let end = (16 + usize::from(hdr & 0x07FF)).min(frame.len());
+    let mut off = 16usize;
+    while off + 12 <= end {
+        let lf = u16::from_le_bytes([frame[off + 6], frame[off + 7]]);
+        let len = usize::from(lf & 0x07FF);
+        let data_off = off + 10;
+        if data_off + len + 2 > end {
+            break;
+        }
+        out.push(RawDatagram {
+            cmd: frame[off],
+            idx: frame[off + 1],
+            adr: [frame[off + 2], frame[off + 3], frame[off + 4], frame[off + 5]],
+            len: len as u16,
+            data: frame[data_off..data_off + len].to_vec(),
+            wkc: u16::from_le_bytes([frame[data_off + len], frame[data_off + len + 1]]),
+        });
+        off = data_off + len + 2;
+        if lf & 0x8000 == 0 {
+            break;
+        }
+    }
+    out
 }
 
 impl Segment {
@@ -1428,6 +1530,7 @@ impl Segment {
             log_datagrams: true,
             last_round_trip_ns: 0,
             loopback_when_empty: false,
+            capture: None,
             frame_seq: 0,
             datagram_seq: 0,
         };
@@ -1572,6 +1675,35 @@ impl Segment {
 
     /// Process one request Ethernet frame. `None` = the frame is lost.
     pub fn process(&mut self, frame: &[u8]) -> Option<Vec<u8>> {
+        let frame_seq = self.frame_seq;
+        let now_ns = self.now_ns;
+        let response = self.process_frame(frame);
+        if let Some(c) = self.capture.as_mut() {
+            c.push(CapturedFrame {
+                frame_seq,
+                now_ns,
+                request: frame.to_vec(),
+                response: response.clone(),
+            });
+        }
+        response
+    }
+
+    /// Sim time (relative to the moment a frame leaves the MainDevice) at which a frame reaches
+    /// port 0 of each device on its outbound pass, with the current `present` flags. `None` for
+    /// unreachable devices.
+    pub fn outbound_arrival_ns(&self) -> Vec<Option<u64>> {
+        let n = self.devices.len();
+        let mut order = Vec::with_capacity(n);
+        let mut ctxs: Vec<Option<Ctx>> = vec![None; n];
+        if n == 0 || !self.devices[0].present {
+            return vec![None; n];
+        }
+        self.walk(0, self.link_delay_ns[0], &mut order, &mut ctxs);
+        ctxs.iter().map(|c| c.map(|c| c.arrival_ns)).collect()
+    }
+
+    fn process_frame(&mut self, frame: &[u8]) -> Option<Vec<u8>> {
         let frame_seq = self.frame_seq;
         self.frame_seq += 1;
 
